@@ -199,6 +199,23 @@ def check_rk4_callables(w, rep, rule, label, thunk, where):
     return val, n
 
 
+def forward_rules(w, rep, modname, mapping, tier="quick", why=""):
+    """Runs another property's rules on a scratch report and copies the obligations of the rules named in `mapping`
+    ({their rule id: rule id here}) into `rep`.  Used where a clause of one property is literally a clause of another
+    (motor commands within limits = the allocator's clamps)."""
+    import importlib
+    from ..report import Report, Ob
+    mod = importlib.import_module("sa.rules.%s" % modname)
+    scratch = Report(modname.upper(), tier)
+    mod.run(w, scratch, tier)
+    n = 0
+    for o in scratch.obs:
+        if o.rule in mapping:
+            rep.obs.append(Ob(mapping[o.rule], o.instance, o.status, o.msg, o.file, o.line, o.fact, o.nontrivial))
+            n += 1
+    return n
+
+
 def eye(n):
     return CA.SX.eye(n)
 
